@@ -687,6 +687,18 @@ def decode_from_hdf5(value: Any) -> Any:
             return value.item()
         if value.dtype.kind in {"S", "O", "U"}:
             try:
+                # Byte strings are UTF-8 (see encode_for_hdf5); astype(str)
+                # alone decodes them as ASCII and fails on anything else
+                if value.dtype.kind == "S":
+                    value = np.char.decode(value, "utf-8")
+                elif value.dtype.kind == "O":
+                    value = np.array(
+                        [
+                            v.decode("utf-8") if isinstance(v, bytes) else v
+                            for v in value.ravel()
+                        ],
+                        dtype=object,
+                    ).reshape(value.shape)
                 return value.astype(str).tolist()
             except Exception:
                 # fallback: leave as ndarray
